@@ -315,6 +315,20 @@ func (fr *Frame) argBindings0(cc *ssa.CallCommon, args []Term) map[string]TV {
 			out[f.Params[j+1].Name()] = TV{T: args[j+i], Ty: f.Params[j+1].Type()}
 			out[fmt.Sprintf("arg%d", j)] = out[f.Params[j+1].Name()]
 		}
+		if len(f.Params) == 0 {
+			// a method without a body (other module): names come from the signature and the contract
+			if rv := f.Signature.Recv(); rv != nil && rv.Name() != "" && rv.Name() != "_" {
+				out[rv.Name()] = out["self"]
+			}
+			for j := 0; j < sig.Params().Len() && j+i < len(args); j++ {
+				p := sig.Params().At(j)
+				tv := TV{T: args[j+i], Ty: p.Type()}
+				if p.Name() != "" && p.Name() != "_" {
+					out[p.Name()] = tv
+				}
+				out[fmt.Sprintf("arg%d", j)] = tv
+			}
+		}
 		return out
 	}
 	for j := 0; j < sig.Params().Len() && j+i < len(args); j++ {
